@@ -567,13 +567,20 @@ def type_listing(F, S):
     eng = Engine(F, S)
     eng.analyze(fn, frozenset())
     out = []
-    pushes = [nd for nd in fn.nodes if nd["k"] == "CXXMemberCallExpr" and nd.get("fname") == "push_back"]
+    # (the per-archive member loop may have been moved into a helper: the append is judged where it stands, in the
+    # vocabulary of the listing function)
+    from ..through import find_calls
+    pushes = find_calls(F, fn, lambda nd: nd["k"] == "CXXMemberCallExpr" and nd.get("fname") == "push_back")
     if len(pushes) != 1:
         raise AnalysisBroken("GetAllFilenamesOfType: expected one push_back")
-    pb = pushes[0]
-    cont = fn.term(pb["obj"])
-    item = fn.term(pb["args"][0])
-    site = final_site_facts(eng, fn, pb["id"]) or set()
+    st = pushes[0]
+    pb = st.node
+    cont = st.obj()
+    item = st.args()[0]
+    site = final_site_facts(eng, st.owner, pb["id"]) or set()
+    if st.subst:
+        site = {substitute(f, st.subst) for f in site}
+    pb = {"id": st.outer_id()}
     ext = P(fn, 0)
     has_ext = any(f[0] == "true" and f[1] == ("call", XF + "ExtensionMatches", None, (item, ext)) for f in site)
     dup = [f for f in site if f[0] == "false" and f[1][0] == "call" and f[1][1] == RM + "::IsDuplicateFilename"]
